@@ -391,8 +391,7 @@ def classify_list(want, got, raw, blocks, target):
             if block_applies(b, target) and len(vals) != len(set(vals)):
                 return "identityfile keeps a duplicate written twice in one block"
         return "identityfile keeps a duplicate across blocks"
-    if any(isinstance(x, str) and TOKEN_RX.search(x.replace("%h", "%h")) and "%h" in x for x in got) and \
-            not any("%h" in x for x in want):
+    if any(isinstance(x, str) and "%h" in x for x in got) and not any("%h" in x for x in want):
         return "token %h left unexpanded in identityfile (HostName itself contains %h)"
     if sorted(map(str, got)) == sorted(map(str, want)):
         return "identityfile values accumulate in a different order than the blocks"
